@@ -5,7 +5,6 @@
 //! specific implementation), natively, under Miri seeds and under TSan.
 
 use crate::exec::{hex, unhex};
-use crate::oracle;
 use memchr::memmem::{Finder, FinderRev};
 use std::sync::mpsc;
 use std::sync::{Arc, Barrier};
@@ -111,32 +110,36 @@ fn enc(o: Option<usize>) -> i64 {
     }
 }
 
-/// The sequential answer of one operation (naive oracle only).
-fn expected(p: &Program, op: &TOp) -> Vec<i64> {
+/// The answer of one operation executed on its own, sequentially, by the
+/// crate itself: what the call "would return in isolation" (C15's statement).
+/// It is evaluated only AFTER all threads have finished, so that the first
+/// calls of the process still race to install the dispatched implementation.
+fn sequential(p: &Program, finder: &Finder<'_>, rfinder: &FinderRev<'_>, op: &TOp) -> Vec<i64> {
     let h = |i: u8| -> &[u8] { &p.hays[i as usize % p.hays.len()] };
     match op {
-        TOp::Memchr(a, i) => vec![enc(oracle::naive_pos(&[*a], h(*i)))],
-        TOp::Memrchr(a, i) => vec![enc(oracle::naive_rpos(&[*a], h(*i)))],
-        TOp::Memchr2(a, b, i) => vec![enc(oracle::naive_pos(&[*a, *b], h(*i)))],
-        TOp::Memrchr2(a, b, i) => vec![enc(oracle::naive_rpos(&[*a, *b], h(*i)))],
-        TOp::Memchr3(a, b, c, i) => vec![enc(oracle::naive_pos(&[*a, *b, *c], h(*i)))],
-        TOp::Memrchr3(a, b, c, i) => vec![enc(oracle::naive_rpos(&[*a, *b, *c], h(*i)))],
-        TOp::Count(a, i) => vec![oracle::naive_count(&[*a], h(*i)) as i64],
-        TOp::Find(i) => vec![enc(oracle::naive_find(h(*i), &p.needle))],
-        TOp::Rfind(i) => vec![enc(oracle::naive_rfind(h(*i), &p.needle))],
-        TOp::FindIter(i) => oracle::greedy_fwd(h(*i), &p.needle).into_iter().map(|x| x as i64).collect(),
-        TOp::HandOff(a, i, _) => oracle::naive_positions(&[*a], h(*i)).into_iter().map(|x| x as i64).collect(),
+        TOp::Memchr(a, i) => vec![enc(memchr::memchr(*a, h(*i)))],
+        TOp::Memrchr(a, i) => vec![enc(memchr::memrchr(*a, h(*i)))],
+        TOp::Memchr2(a, b, i) => vec![enc(memchr::memchr2(*a, *b, h(*i)))],
+        TOp::Memrchr2(a, b, i) => vec![enc(memchr::memrchr2(*a, *b, h(*i)))],
+        TOp::Memchr3(a, b, c, i) => vec![enc(memchr::memchr3(*a, *b, *c, h(*i)))],
+        TOp::Memrchr3(a, b, c, i) => vec![enc(memchr::memrchr3(*a, *b, *c, h(*i)))],
+        TOp::Count(a, i) => vec![memchr::memchr_iter(*a, h(*i)).count() as i64],
+        TOp::Find(i) => vec![enc(finder.find(h(*i)))],
+        TOp::Rfind(i) => vec![enc(rfinder.rfind(h(*i)))],
+        TOp::FindIter(i) => finder.find_iter(h(*i)).map(|x| x as i64).collect(),
+        TOp::HandOff(a, i, _) => memchr::memchr_iter(*a, h(*i)).map(|x| x as i64).collect(),
     }
 }
 
-/// Runs the program; returns a description of the first disagreement.
+/// Runs the program; returns a description of the first disagreement
+/// between what a thread observed and what the same call returns on its own
+/// afterwards.
 pub fn run(p: &Program) -> Result<u64, String> {
     let nthreads = p.threads.len();
     if nthreads == 0 {
         return Ok(0);
     }
     // everything the threads need is prepared without touching the crate's dispatched routines
-    let expect: Vec<Vec<Vec<i64>>> = p.threads.iter().map(|ops| ops.iter().map(|op| expected(p, op)).collect()).collect();
     let finder = Finder::new(&p.needle);
     let rfinder = FinderRev::new(&p.needle);
     let barrier = Arc::new(Barrier::new(nthreads));
@@ -145,38 +148,27 @@ pub fn run(p: &Program) -> Result<u64, String> {
     let mut senders = Vec::new();
     let mut receivers = Vec::new();
     for _ in 0..nthreads {
-        let (tx, rx) = mpsc::channel::<(memchr::Memchr<'_>, usize, usize, usize)>();
+        let (tx, rx) = mpsc::channel::<(memchr::Memchr<'_>, usize, usize)>();
         senders.push(tx);
         receivers.push(Some(rx));
     }
-    let results: Vec<Result<u64, String>> = std::thread::scope(|sc| {
+    // observations: (thread, op index) -> values; handed-off remainders: (from thread, op index) -> values
+    type Obs = Vec<(usize, usize, Vec<i64>)>;
+    let results: Vec<Result<(Obs, Obs), String>> = std::thread::scope(|sc| {
         let mut handles = Vec::new();
         for t in 0..nthreads {
             let barrier = barrier.clone();
             let finder = &finder;
             let rfinder = &rfinder;
             let ops = &prog.threads[t];
-            let exp = &expect[t];
             let next_tx = senders[(t + 1) % nthreads].clone();
             let my_rx = receivers[t].take().unwrap();
-            handles.push(sc.spawn(move || -> Result<u64, String> {
+            handles.push(sc.spawn(move || -> Result<(Obs, Obs), String> {
                 let h = |i: u8| -> &[u8] { &prog.hays[i as usize % prog.hays.len()] };
-                let mut calls = 0u64;
-                let mut sent = 0usize;
+                let mut obs: Obs = Vec::new();
                 barrier.wait();
                 for (k, op) in ops.iter().enumerate() {
-                    calls += 1;
                     let got: Vec<i64> = match op {
-                        TOp::Memchr(a, i) => vec![enc(memchr::memchr(*a, h(*i)))],
-                        TOp::Memrchr(a, i) => vec![enc(memchr::memrchr(*a, h(*i)))],
-                        TOp::Memchr2(a, b, i) => vec![enc(memchr::memchr2(*a, *b, h(*i)))],
-                        TOp::Memrchr2(a, b, i) => vec![enc(memchr::memrchr2(*a, *b, h(*i)))],
-                        TOp::Memchr3(a, b, c, i) => vec![enc(memchr::memchr3(*a, *b, *c, h(*i)))],
-                        TOp::Memrchr3(a, b, c, i) => vec![enc(memchr::memrchr3(*a, *b, *c, h(*i)))],
-                        TOp::Count(a, i) => vec![memchr::memchr_iter(*a, h(*i)).count() as i64],
-                        TOp::Find(i) => vec![enc(finder.find(h(*i)))],
-                        TOp::Rfind(i) => vec![enc(rfinder.rfind(h(*i)))],
-                        TOp::FindIter(i) => finder.find_iter(h(*i)).map(|x| x as i64).collect(),
                         TOp::HandOff(a, i, take) => {
                             // consume `take` items here, the next thread consumes the rest
                             let mut it = memchr::memchr_iter(*a, h(*i));
@@ -187,55 +179,50 @@ pub fn run(p: &Program) -> Result<u64, String> {
                                     None => break,
                                 }
                             }
-                            let e = &exp[k];
-                            if got[..] != e[..got.len().min(e.len())] || got.len() > e.len() {
-                                return Err(format!("thread {} op {} {:?}: first part {:?}, sequential {:?}", t, k, op, got, e));
-                            }
-                            let _ = next_tx.send((it, t, k, got.len()));
-                            sent += 1;
-                            continue;
+                            let _ = next_tx.send((it, t, k));
+                            got
                         }
+                        other => sequential(prog, finder, rfinder, other),
                     };
-                    if got != exp[k] {
-                        return Err(format!("thread {} op {} {:?}: got {:?}, sequential answer {:?}", t, k, op, got, exp[k]));
-                    }
+                    obs.push((t, k, got));
                 }
-                let _ = sent;
                 drop(next_tx);
-                Ok(calls)
+                Ok((obs, Vec::new()))
             }));
-            let _ = my_rx_holder(&mut handles, my_rx, &expect, t, sc);
+            handles.push(sc.spawn(move || -> Result<(Obs, Obs), String> {
+                let mut rest: Obs = Vec::new();
+                while let Ok((it, from, k)) = my_rx.recv() {
+                    rest.push((from, k, it.map(|x| x as i64).collect()));
+                }
+                Ok((Vec::new(), rest))
+            }));
         }
         drop(senders);
         handles.into_iter().map(|h| h.join().unwrap_or_else(|_| Err("a thread panicked".to_string()))).collect()
     });
-    let mut calls = 0;
+    let mut calls = 0u64;
+    let mut obs: Obs = Vec::new();
+    let mut rests: Obs = Vec::new();
     for r in results {
-        calls += r?;
+        let (o, r2) = r?;
+        obs.extend(o);
+        rests.extend(r2);
+    }
+    // the reference: the same calls, one after the other, now that all threads are gone
+    for (t, k, got) in obs.iter() {
+        calls += 1;
+        let op = &p.threads[*t][*k];
+        let seq = sequential(p, &finder, &rfinder, op);
+        if let TOp::HandOff(..) = op {
+            let rest = rests.iter().find(|(f, kk, _)| f == t && kk == k).map(|x| x.2.clone()).unwrap_or_default();
+            let mut whole = got.clone();
+            whole.extend(rest);
+            if whole != seq {
+                return Err(format!("thread {} op {} {:?}: first part {:?} + remainder consumed by the next thread = {:?}, the same iteration on its own yields {:?}", t, k, op, got, whole, seq));
+            }
+        } else if *got != seq {
+            return Err(format!("thread {} op {} {:?}: returned {:?} concurrently, {:?} when called on its own afterwards", t, k, op, got, seq));
+        }
     }
     Ok(calls)
-}
-
-/// Spawns the receiving half of thread `t`: it drains iterators handed over
-/// by the previous thread and checks that they continue the sequential
-/// sequence.
-fn my_rx_holder<'scope, 'env>(
-    handles: &mut Vec<std::thread::ScopedJoinHandle<'scope, Result<u64, String>>>,
-    rx: mpsc::Receiver<(memchr::Memchr<'env>, usize, usize, usize)>,
-    expect: &'env Vec<Vec<Vec<i64>>>,
-    t: usize,
-    sc: &'scope std::thread::Scope<'scope, 'env>,
-) {
-    handles.push(sc.spawn(move || -> Result<u64, String> {
-        let mut calls = 0;
-        while let Ok((it, from, k, already)) = rx.recv() {
-            calls += 1;
-            let rest: Vec<i64> = it.map(|x| x as i64).collect();
-            let e = &expect[from][k];
-            if rest[..] != e[already.min(e.len())..] {
-                return Err(format!("iterator handed from thread {} (op {}) to thread {}: continued with {:?}, sequential remainder {:?}", from, k, t, rest, &e[already.min(e.len())..]));
-            }
-        }
-        Ok(calls)
-    }));
 }
